@@ -37,6 +37,7 @@ STRT = 'starlark/src/values/types/string/str_type.rs'
 SMAP = 'starlark_map/src/small_map.rs'
 RNG = 'starlark/src/values/types/range/range_type.rs'
 EVALRS = 'starlark/src/eval.rs'
+CALLRS = 'starlark_syntax/src/syntax/call.rs'
 RNGG = 'starlark/src/values/types/range/globals.rs'
 
 # (unit, file, old, new, expected obligation substring)
@@ -117,6 +118,12 @@ MUTANTS = [
     ('limits', EVALRS, '        let res = compiler.eval_module(cst, local_names);\n', '        let res = compiler.eval_module(cst, local_names);\n        self.run_infrequent_instr_checks()?;\n', 'C07.eval_module.depth_restored'),
     ('limits', EVALRS, '        // Clean up the world, putting everything back\n        self.call_stack.pop();\n', '        // Clean up the world, putting everything back\n        if res.is_ok() { self.call_stack.pop(); }\n', 'C07.eval_module.depth_restored'),
     ('limits', EVALRS, '        self.call_stack.push(Value::new_none(), None).unwrap();\n', '        self.call_stack.push(Value::new_none(), None).unwrap();\n        self.call_stack.push(Value::new_none(), None)?;\n', 'C07.eval_module.depth_restored'),
+    ('callargs', CALLRS, 'if stage != ArgsStage::Positional {', 'if stage > ArgsStage::Named {', 'C08.callargs.accept_iff'),
+    ('callargs', CALLRS, '} else if !named_args.insert(&n.node) {', '} else if !named_args.insert(&n.node) && num_named > 1 {', 'C08.callargs.accept_iff'),
+    ('callargs', CALLRS, '                    if stage > ArgsStage::Named {\n                        return err(arg.span, "Args array after another args or kwargs");', '                    if stage > ArgsStage::Args {\n                        return err(arg.span, "Args array after another args or kwargs");', 'callargs'),
+    ('callargs', CALLRS, 'named: &args[num_pos..num_pos + num_named],', 'named: &args[num_pos..num_pos + num_named + 1],', 'CallArgsUnpack'),
+    ('callargs', CALLRS, 'pos: &args[..num_pos],', 'pos: &args[..num_named],', 'C08.callargs.split'),
+    ('callargs', CALLRS, 'if stage == ArgsStage::Kwargs {', 'if stage == ArgsStage::Args {', 'C08.callargs'),
     ('calls', INSTR, '        eval.with_call_stack(self.to_value(), Some(location), |eval| {\n            self.invoke(args, eval)\n        })', '        self.invoke(args, eval)', 'bc_invoke'),
     ('calls', 'starlark/src/values/layout/value.rs', '        eval.with_call_stack(self, location, |eval| {\n            self.get_ref_full().invoke(args, eval)\n        })', '        self.get_ref_full().invoke(args, eval)', 'invoke_with_loc'),
     ('strindex', STRT, 'let ind = CharIndex(i.unsigned_abs() as usize);', 'let ind = CharIndex((-i) as usize);', 'at'),
